@@ -1108,8 +1108,13 @@ def replace_dict_values(name: str,
     new_dict = {}
     for n, v in dictionary.items():
         if isinstance(v, np.ndarray):
-            v = "[{0}]".format(get_mixed_range_representation(
-                v, filename_mode))
+            if v.ndim == 1 and v.size > 0 and v.dtype.kind in 'iuf':
+                v = "[{0}]".format(
+                    get_mixed_range_representation(v, filename_mode))
+            else:
+                # The range representation only exists for non-empty 1D
+                # numeric arrays
+                v = str(v.tolist())
         new_dict[n] = v
 
     return name.format(**new_dict)
